@@ -34,6 +34,9 @@ type Router struct {
 	After  func(ex *Exchange)
 	// Monitor inspects every request (C08).
 	Monitor func(ex *Exchange)
+	// FailNext[path] > 0: the next request to that path gets a transport-level error (it never reaches the mint; the
+	// request is still logged and monitored) and the count is decremented — a dropped connection
+	FailNext map[string]int
 }
 
 var theRouter = &Router{Handlers: map[string]http.Handler{}}
@@ -46,6 +49,7 @@ func (r *Router) Reset() {
 	r.Log = nil
 	r.Cur = ""
 	r.Before, r.After, r.Monitor = nil, nil, nil
+	r.FailNext = map[string]int{}
 	r.mu.Unlock()
 }
 
@@ -68,6 +72,18 @@ func (r *Router) RoundTrip(req *http.Request) (*http.Response, error) {
 	}
 	if r.Before != nil {
 		r.Before(ex)
+	}
+	r.mu.Lock()
+	drop := r.FailNext[req.URL.Path] > 0
+	if drop {
+		r.FailNext[req.URL.Path]--
+		ex.Status = -1
+		ex.RespBody = "transport error injected"
+		r.Log = append(r.Log, *ex)
+	}
+	r.mu.Unlock()
+	if drop {
+		return nil, fmt.Errorf("read tcp: connection reset by peer (injected)")
 	}
 	inner := httptest.NewRequest(req.Method, req.URL.String(), bytes.NewReader(body))
 	for k, v := range req.Header {
